@@ -4,7 +4,7 @@
 use crate::oracle::Mat;
 use linfa::traits::{Fit, Predict};
 use linfa::{Dataset, Float};
-use linfa_elasticnet::{ElasticNet, MultiTaskElasticNet};
+use linfa_elasticnet::{ElasticNet, ElasticNetParams, ElasticNetParamsBase, MultiTaskElasticNet, MultiTaskElasticNetParams};
 use linfa_linear::LinearRegression;
 use ndarray::{Array1, Array2};
 
@@ -27,6 +27,35 @@ pub struct EnetCfg {
     pub intercept: bool,
     pub tol: f64,
     pub max_iter: u32,
+    /// construction path, see `EnetCase::ctor`
+    pub ctor: u8,
+    /// leave options that equal their documented default unset
+    pub leave_defaults: bool,
+}
+
+/// Documented defaults (parameter table of `ElasticNetParams`).
+pub const DEF_PENALTY: f64 = 1.0;
+pub const DEF_L1_RATIO: f64 = 0.5;
+pub const DEF_INTERCEPT: bool = true;
+pub const DEF_TOL: f64 = 1e-4;
+
+/// Applies the options; with `leave_defaults` an option equal to its documented default is not
+/// touched, `l1_preset` says that the constructor (`lasso()` / `ridge()`) already fixed l1_ratio.
+fn configure<F: Float, const M: bool>(mut p: ElasticNetParamsBase<F, M>, cfg: &EnetCfg, l1_preset: bool) -> ElasticNetParamsBase<F, M> {
+    let leave = cfg.leave_defaults;
+    if !(leave && cfg.penalty == DEF_PENALTY) {
+        p = p.penalty(F::cast(cfg.penalty));
+    }
+    if !l1_preset && !(leave && cfg.l1_ratio == DEF_L1_RATIO) {
+        p = p.l1_ratio(F::cast(cfg.l1_ratio));
+    }
+    if !(leave && cfg.intercept == DEF_INTERCEPT) {
+        p = p.with_intercept(cfg.intercept);
+    }
+    if !(leave && cfg.tol == DEF_TOL) {
+        p = p.tolerance(F::cast(cfg.tol));
+    }
+    p.max_iterations(cfg.max_iter)
 }
 
 fn f<F: Float>(v: F) -> f64 {
@@ -42,12 +71,14 @@ pub fn fit_enet<F: Float>(x: &Mat, y: &Mat, n: usize, p: usize, t: usize, cfg: &
     if cfg.multi {
         let ya: Array2<F> = arr2(y, n, t);
         let ds = Dataset::new(xa.clone(), ya);
-        let m = MultiTaskElasticNet::<F>::params()
-            .penalty(F::cast(cfg.penalty))
-            .l1_ratio(F::cast(cfg.l1_ratio))
-            .with_intercept(cfg.intercept)
-            .tolerance(F::cast(cfg.tol))
-            .max_iterations(cfg.max_iter)
+        let (base, preset): (MultiTaskElasticNetParams<F>, bool) = match cfg.ctor {
+            1 => (MultiTaskElasticNetParams::<F>::new(), false),
+            2 => (MultiTaskElasticNetParams::<F>::default(), false),
+            3 if cfg.l1_ratio == 1.0 => (MultiTaskElasticNet::<F>::lasso(), true),
+            3 if cfg.l1_ratio == 0.0 => (MultiTaskElasticNet::<F>::ridge(), true),
+            _ => (MultiTaskElasticNet::<F>::params(), false),
+        };
+        let m = configure(base, cfg, preset)
             .fit(&ds)
             .map_err(|e| e.to_string())?;
         let h = m.hyperplane();
@@ -68,12 +99,14 @@ pub fn fit_enet<F: Float>(x: &Mat, y: &Mat, n: usize, p: usize, t: usize, cfg: &
     } else {
         let ya: Array1<F> = Array1::from_shape_fn(n, |i| F::cast(y[i][0]));
         let ds = Dataset::new(xa.clone(), ya);
-        let m = ElasticNet::<F>::params()
-            .penalty(F::cast(cfg.penalty))
-            .l1_ratio(F::cast(cfg.l1_ratio))
-            .with_intercept(cfg.intercept)
-            .tolerance(F::cast(cfg.tol))
-            .max_iterations(cfg.max_iter)
+        let (base, preset): (ElasticNetParams<F>, bool) = match cfg.ctor {
+            1 => (ElasticNetParams::<F>::new(), false),
+            2 => (ElasticNetParams::<F>::default(), false),
+            3 if cfg.l1_ratio == 1.0 => (ElasticNet::<F>::lasso(), true),
+            3 if cfg.l1_ratio == 0.0 => (ElasticNet::<F>::ridge(), true),
+            _ => (ElasticNet::<F>::params(), false),
+        };
+        let m = configure(base, cfg, preset)
             .fit(&ds)
             .map_err(|e| e.to_string())?;
         let h = m.hyperplane();
@@ -101,12 +134,17 @@ pub struct OlsOut {
     pub pred: Vec<f64>,
 }
 
-pub fn fit_ols<F: Float>(x: &Mat, y: &[f64], n: usize, p: usize, intercept: bool) -> Result<OlsOut, String> {
+/// `ctor`: 0 = `LinearRegression::new()`, 1 = `LinearRegression::default()`; with `leave_defaults` the
+/// intercept option is not touched when it equals its documented default (intercept fitted).
+pub fn fit_ols<F: Float>(x: &Mat, y: &[f64], n: usize, p: usize, intercept: bool, ctor: u8, leave_defaults: bool) -> Result<OlsOut, String> {
     let xa: Array2<F> = arr2(x, n, p);
     let ya: Array1<F> = Array1::from_shape_fn(n, |i| F::cast(y[i]));
     let ds = Dataset::new(xa.clone(), ya);
-    let m = LinearRegression::new()
-        .with_intercept(intercept)
+    let mut lr = if ctor == 1 { LinearRegression::default() } else { LinearRegression::new() };
+    if !(leave_defaults && intercept) {
+        lr = lr.with_intercept(intercept);
+    }
+    let m = lr
         .fit(&ds)
         .map_err(|e| e.to_string())?;
     if m.params().len() != p {
